@@ -5,6 +5,7 @@
   kernel are the correspondence run (`P` cases of harness/src/bin/c19.rs).
 -/
 import YashModel.Kernel.Signal
+import YashModel.Kernel.SigStep
 namespace YashModel.Kernel.Signal
 
 /-! ## fork -/
@@ -132,5 +133,39 @@ theorem blocked_signal_delivered_on_unblock (p : Proc) (s : Sig) (ha : p.alive =
 example : (generate (block Proc.init [.USR1]) .USR1).pending .USR1 = true := by decide
 example : (unblock (act (generate (block Proc.init [.USR1]) .USR1) .USR1 .catch).2 [.USR1]).caught = [.USR1] := by
   decide
+
+/-! ## what the driver shows for a forked child (`runChild`, SigStep.lean) -/
+
+theorem listOf_empty : listOf SigSet.empty = [] := by
+  simp [listOf, SigSet.empty]
+
+/-- ★ End to end: whatever the parent's state (pending signals included) and whatever follows, a child
+    that first asks for its pending signals, its mask and a disposition is shown the EMPTY pending set, the
+    parent's mask and the parent's disposition — these are the tokens the model column prints. -/
+theorem child_first_observations (par : Proc) (s : Sig) (rest : List SOp) :
+    ∃ more, (runChild par (.pend :: .mask :: .get s :: .caught :: rest)).2.1 =
+      .sigs [] :: .sigs (listOf par.mask) :: .disp (par.disp s) :: .sigs [] :: more := by
+  have hl : listOf (fork par).pending = [] := listOf_empty
+  have hc : listOf (SigSet.ofList (takeCaught (fork par)).1) = [] := by
+    simp [listOf, takeCaught, fork, SigSet.ofList]
+  have ha : (fork par).alive = true := rfl
+  have ha2 : (takeCaught (fork par)).2.alive = true := rfl
+  refine ⟨(childOps (takeCaught (fork par)).2 par rest).2.2, ?_⟩
+  simp only [runChild]
+  rw [childOps]; simp only [ha, Bool.not_true, Bool.false_eq_true, if_false, sstep, Option.getD]
+  rw [childOps]; simp only [ha, Bool.not_true, Bool.false_eq_true, if_false, sstep, Option.getD]
+  rw [childOps]; simp only [ha, Bool.not_true, Bool.false_eq_true, if_false, sstep, Option.getD]
+  rw [childOps]; simp only [ha, Bool.not_true, Bool.false_eq_true, if_false, sstep, Option.getD]
+  rw [hl, hc]
+  rfl
+
+/-- the parent's own pending set is untouched by the child's inspection (and the parent gets SIGCHLD
+    according to its own mask and disposition afterwards) -/
+theorem parent_after_inspecting_child (par : Proc) :
+    (runChild par [.pend, .mask]).1 = generate par .CHLD ∧ (runChild par [.pend, .mask]).2.2 = .exited 0 := by
+  simp [runChild, childOps, sstep, Proc.alive, fork, exit]
+
+example : ∃ more, (runChild (generate (block Proc.init [.USR1]) .USR1) [.pend, .mask, .get .USR1, .caught]).2.1 =
+    .sigs [] :: .sigs [.USR1] :: .disp .dfl :: .sigs [] :: more := ⟨[], by decide⟩
 
 end YashModel.Kernel.Signal
